@@ -68,6 +68,7 @@ type Verifier struct {
 	opaqueDefs      map[string]*opaqueDef
 	lemmasUsed      map[string]bool
 	autoFrameKept   map[string]bool
+	curWS           *writeSet
 }
 
 type writeSet struct {
@@ -75,6 +76,10 @@ type writeSet struct {
 	all    bool
 	ghosts bool // sends (ghost sendcount)
 	closes bool // close / make(chan) (ghost closed)
+	// unknown: "all" is (also) due to code whose writes are not known (dynamic
+	// calls, external functions, recursion, "modifies everything") rather than
+	// only to blocking operations during which other goroutines run
+	unknown bool
 }
 
 func loadVerifier(repoDir string) (*Verifier, error) {
@@ -376,14 +381,24 @@ func (v *Verifier) funcWriteSet(e *Enc, fn *ssa.Function) *writeSet {
 		return ws
 	}
 	if v.writesBusy[fn] {
-		return &writeSet{keys: map[string]bool{}, all: true, ghosts: true}
+		v.markUnknown()
+		return &writeSet{keys: map[string]bool{}, all: true, ghosts: true, unknown: true}
 	}
 	v.writesBusy[fn] = true
 	ws := &writeSet{keys: map[string]bool{}}
 	if fn.Blocks == nil {
 		ws.all = true
 		ws.ghosts = true
+		ws.unknown = true
 	}
+	saved := v.curWS
+	v.curWS = ws
+	defer func() {
+		v.curWS = saved
+		if ws.unknown {
+			v.markUnknown()
+		}
+	}()
 	for _, b := range fn.Blocks {
 		for _, ins := range b.Instrs {
 			k, a, g := v.instrWrites(e, ins, nil)
@@ -400,6 +415,14 @@ func (v *Verifier) funcWriteSet(e *Enc, fn *ssa.Function) *writeSet {
 	delete(v.writesBusy, fn)
 	v.writesCache[fn] = ws
 	return ws
+}
+
+// markUnknown records that the write set being computed contains effects
+// that are not known key by key.
+func (v *Verifier) markUnknown() {
+	if v.curWS != nil {
+		v.curWS.unknown = true
+	}
 }
 
 func (v *Verifier) scratchEnc() *Enc {
@@ -554,6 +577,7 @@ func (v *Verifier) callWrites(e *Enc, c *ssa.CallCommon, fr *frame) (keys []stri
 		case "close":
 			return nil, false, false
 		case "clear":
+			v.markUnknown()
 			return nil, true, true
 		}
 		return nil, false, false
@@ -564,11 +588,16 @@ func (v *Verifier) callWrites(e *Enc, c *ssa.CallCommon, fr *frame) (keys []stri
 			return nil, false, false
 		}
 		if con := v.db.Ifaces[key]; con != nil && con.HasMod {
-			return v.contractWriteKeys(e, con, nil)
+			k, a, g := v.contractWriteKeys(e, con, nil)
+			if a {
+				v.markUnknown()
+			}
+			return k, a, g
 		}
 		if v.ifacePure(c.Method) {
 			return nil, false, false
 		}
+		v.markUnknown()
 		return nil, true, true
 	}
 	fn := c.StaticCallee()
@@ -584,6 +613,7 @@ func (v *Verifier) callWrites(e *Enc, c *ssa.CallCommon, fr *frame) (keys []stri
 			if e != nil && e.contract != nil && e.contract.DynPure {
 				return nil, false, false
 			}
+			v.markUnknown()
 			return nil, true, true
 		}
 	}
@@ -607,6 +637,7 @@ func (v *Verifier) callWrites(e *Enc, c *ssa.CallCommon, fr *frame) (keys []stri
 				}
 			}
 			if len(out) == 0 {
+				v.markUnknown()
 				return nil, true, false
 			}
 			return out, false, false
@@ -617,7 +648,11 @@ func (v *Verifier) callWrites(e *Enc, c *ssa.CallCommon, fr *frame) (keys []stri
 		return nil, false, false
 	}
 	if con := v.db.Funcs[key]; con != nil && con.HasMod && !con.Inline {
-		return v.contractWriteKeys(e, con, fn)
+		k, a, g := v.contractWriteKeys(e, con, fn)
+		if a {
+			v.markUnknown()
+		}
+		return k, a, g
 	}
 	if fn.Blocks != nil && (v.inRepo(fn) || fn.Parent() != nil) {
 		ws := v.funcWriteSet(e, fn)
@@ -629,6 +664,7 @@ func (v *Verifier) callWrites(e *Enc, c *ssa.CallCommon, fr *frame) (keys []stri
 	if v.externalPure(fn) {
 		return nil, false, false
 	}
+	v.markUnknown()
 	return nil, true, true
 }
 
